@@ -3,7 +3,7 @@
    loop), min/max number kernels and madd/msub/mmul/mexp, plus the INT/FLOAT corner of their disposition
    matrices.  Ints are Z with explicit wrap64 (Go int64 arithmetic wraps); floats are Coq primitive floats
    (IEEE-754 binary64, the same hardware operations Go uses).  Go run-time panics (integer division by zero)
-   are the explicit outcome RPanic.  Definitions only. *)
+   are the explicit outcome RPanic (after the fix: commits of round 1 no kernel can reach it: theorems C07_*_never_panics).  Definitions only. *)
 From Coq Require Import Floats.
 From Miller Require Import Base.Bytes C06.Model.
 Open Scope Z_scope.
@@ -118,16 +118,15 @@ Definition plus_ii (a b : Z) : res :=
   let c := wrap64 (a + b) in
   let overflowed :=
     if 0 <? a then (0 <? b) && (c <? 0)
-    else if a <? 0 then (b <? 0) && (0 <? c)
+    else if a <? 0 then (b <? 0) && (0 <=? c)       (* c = 0 is the wrapped sum of two -2^63's *)
     else false in
   if overflowed then RFloat (i2f a + i2f b)%float else RInt c.
 
 Definition minus_ii (a b : Z) : res :=
   let c := wrap64 (a - b) in
   let overflowed :=
-    if 0 <? a then (b <? 0) && (c <? 0)
-    else if a <? 0 then (0 <? b) && (0 <? c)
-    else false in
+    if 0 <=? a then (b <? 0) && (c <? 0)            (* a = 0: 0 - (-2^63) wraps to -2^63 *)
+    else (0 <? b) && (0 <? c) in
   if overflowed then RFloat (i2f a - i2f b)%float else RInt c.
 
 (* 9223372036854774784.0 = 2^63 - 1024, the largest double below 2^63 (Example times_threshold_value in Proofs.v) *)
@@ -135,15 +134,23 @@ Definition times_threshold : float := 0x1.fffffffffffffp+62%float.
 
 Definition times_ii (a b : Z) : res :=
   let c := (i2f a * i2f b)%float in
-  if (times_threshold <? PrimFloat.abs c)%float then RFloat c else RInt (wrap64 (a * b)).
+  if (times_threshold <? PrimFloat.abs c)%float then RFloat c
+  else
+    (* the float product can round down to the threshold while the exact product is just above 2^63 - 1:
+       the integer product is verified by dividing it back *)
+    let p := wrap64 (a * b) in
+    if negb (a =? 0) && (negb (go_quot p a =? b) || ((a =? -1) && (b =? min_int64))) then RFloat c
+    else RInt p.
 
 Definition divide_ii (a b : Z) : res :=
   if b =? 0 then RFloat (i2f a / i2f b)%float
+  else if (b =? -1) && (a =? min_int64) then RFloat (- i2f a)%float    (* the one quotient that does not fit *)
   else if go_rem a b =? 0 then RInt (go_quot a b)
   else RFloat (i2f a / i2f b)%float.
 
 Definition int_divide_ii (a b : Z) : res :=
   if b =? 0 then RFloat (i2f a / i2f b)%float
+  else if (b =? -1) && (a =? min_int64) then RFloat (- i2f a)%float
   else
     let q := go_quot a b in
     let r := go_rem a b in
@@ -154,13 +161,13 @@ Definition modulus_ii (a b : Z) : res :=
   if b =? 0 then RFloat (i2f a / i2f b)%float
   else
     let m := go_rem a b in
-    let adj := if 0 <=? a then b <? 0 else 0 <=? b in
+    let adj := negb (m =? 0) && negb (Bool.eqb (m <? 0) (b <? 0)) in    (* divisor's sign; an exact multiple is 0 *)
     RInt (if adj then wrap64 (m + b) else m).
 
 Definition dotplus_ii (a b : Z) : res := RInt (wrap64 (a + b)).
 Definition dotminus_ii (a b : Z) : res := RInt (wrap64 (a - b)).
 Definition dottimes_ii (a b : Z) : res := RInt (wrap64 (a * b)).
-Definition dotdivide_ii (a b : Z) : res := if b =? 0 then RPanic else RInt (go_quot a b).
+Definition dotdivide_ii (a b : Z) : res := if b =? 0 then RFloat (i2f a / i2f b)%float else RInt (go_quot a b).
 
 (* float kernels shared by the _if/_fi/_ff variants (operands already converted) *)
 Definition int_divide_ff (a b : float) : float := f_floor (a / b)%float.
@@ -299,9 +306,10 @@ Fixpoint mexp_loop (fuel : nat) (u apower c m : Z) : option Z :=
   end.
 
 Definition imodexp (a e m : Z) : option Z :=
-  if e =? 0 then Some 1
-  else if e =? 1 then Some a
-  else mexp_loop 64 (u64 e) a 1 m.
+  match mlrmod 1 m with
+  | None => None
+  | Some c0 => mexp_loop 64 (u64 e) a c0 m
+  end.
 
 Definition of_modop (r : option Z) : res := match r with Some n => RInt n | None => RPanic end.
 
@@ -371,17 +379,19 @@ Definition eval_un (op : unop) (x : num) : res :=
   | UMath u, NFloat f => math_unary_f u f
   end.
 
-(* imodop / BIF_mod_exp: all three must be ints; mexp rejects a negative exponent before anything else *)
+(* imodop / BIF_mod_exp: all three must be ints; mexp rejects a negative exponent before anything else;
+   a zero modulus is an error value (imodop checks it before calling the kernel, so of_modop never sees None) *)
 Definition eval_tern (op : ternop) (x y z : num) : res :=
   match op, y with
   | TMexp, NInt e => if e <? 0 then RError else
       match x, z with
-      | NInt a, NInt m => of_modop (imodexp a e m)
+      | NInt a, NInt m => if m =? 0 then RError else of_modop (imodexp a e m)
       | _, _ => RError
       end
   | _, _ =>
       match x, y, z with
       | NInt a, NInt b, NInt m =>
+          if m =? 0 then RError else
           of_modop (match op with
                     | TMadd => imodadd a b m | TMsub => imodsub a b m
                     | TMmul => imodmul a b m | TMexp => imodexp a b m end)
